@@ -7,6 +7,9 @@ set -u
 id="$1"; shift
 dir=/verif/seeded/$id
 export GOFLAGS=-mod=mod GOPROXY=off
+# runs against a changed /repo must not replace the evidence of the unchanged tree
+rm -rf /var/tmp/evidence.keep; cp -r /verif/evidence /var/tmp/evidence.keep
+trap 'rm -rf /verif/evidence; mv /var/tmp/evidence.keep /verif/evidence' EXIT
 if [ -n "$(git -C /repo status --short)" ]; then echo "/repo is not clean"; exit 2; fi
 git -C /repo apply --check "$dir/patch.diff" || { echo "patch does not apply"; exit 2; }
 git -C /repo apply "$dir/patch.diff"
